@@ -790,3 +790,42 @@ def self_test():  # noqa: F811
     t = ast.parse(POSITIVE_EXAMPLES['stale_system_after_model_rebind']).body[0]
     ok['stale_system_after_model_rebind'] = bool(stale_system_after_model_rebind(t))
     return ok
+
+
+def defaultdict_overwrites(fnode):
+    """[(name, assign)]: a defaultdict(list|set) collects values per key; `d[k] = value` inside a loop replaces what earlier
+    iterations collected for that key"""
+    dds = set()
+    for a in ast.walk(fnode):
+        if isinstance(a, ast.Assign) and len(a.targets) == 1 and isinstance(a.targets[0], ast.Name) \
+                and isinstance(a.value, ast.Call) and (dotted(a.value.func) or '').split('.')[-1] == 'defaultdict' \
+                and a.value.args and unparse(a.value.args[0]) in ('list', 'set'):
+            dds.add(a.targets[0].id)
+    out = []
+    if not dds:
+        return out, dds
+    for L in [x for x in ast.walk(fnode) if isinstance(x, (ast.For, ast.While))]:
+        for a in ast.walk(L):
+            if isinstance(a, ast.Assign) and isinstance(a.targets[0], ast.Subscript) \
+                    and isinstance(a.targets[0].value, ast.Name) and a.targets[0].value.id in dds:
+                if not any(a is x[1] for x in out):
+                    out.append((a.targets[0].value.id, a))
+    return out, dds
+
+
+POSITIVE_EXAMPLES['defaultdict_overwrites'] = """
+def f(statements):
+    d = defaultdict(list)
+    for s in statements:
+        for a in s.names:
+            d[a] = list(s.values)
+    return d
+"""
+_self_test_base7 = self_test
+
+
+def self_test():  # noqa: F811
+    ok = _self_test_base7()
+    t = ast.parse(POSITIVE_EXAMPLES['defaultdict_overwrites']).body[0]
+    ok['defaultdict_overwrites'] = bool(defaultdict_overwrites(t)[0])
+    return ok
